@@ -111,6 +111,11 @@ func VerifQueueShape(ts *VerifTS, A, B *Agent, shape int) {
 // point where the handler checks for more input the input may also end.
 func H_c01_dispatch_lazy() {
 	ci := nondet_choice("cmd", len(verifCommands)+1)
+	// COMMAND_CHECKIN and COMMAND_KERBEROS branch on most of their ~20 integer fields; their
+	// lazy exploration does not finish within the quick budget (CHECKIN is covered with
+	// reference-encoded metadata by H_c03_identity, both by the raw-bytes harnesses)
+	verif_assume(ci != 3)
+	verif_assume(ci != 27)
 	ts, A, _, _ := verifStateS()
 	ts.Logs = nondet_bool("sendlogs")
 	var cmd uint32
